@@ -3,6 +3,7 @@ package main
 import (
 	"fmt"
 	"go/token"
+	"os"
 	"sort"
 	"strings"
 
@@ -98,6 +99,11 @@ func forAll(fs []*qf, check func(asg map[string]bool) bool) (map[string]bool, in
 	}
 	sort.Strings(atoms)
 	if len(atoms) > 22 {
+		if os.Getenv("SPDXVERIF_TRACE_ATOMS") != "" {
+			for _, a := range atoms {
+				fmt.Println("ATOM", a)
+			}
+		}
 		return nil, len(atoms), false
 	}
 	asg := map[string]bool{}
